@@ -415,9 +415,60 @@ def one_cycle(ctx, spec, info, kind, idx, case=None):
             return
 
 
+def unbounded_case(ctx):
+    """directed: the failing cell sits in a column that another sheet reads as Src!A:A"""
+    install()
+    for mode in ('plain', 'iterative'):
+        for kind in ('nosuch', 'failk-always'):
+            bad_formula = '=NOSUCH(1)' if kind == 'nosuch' else '=FAILK("u",0,1)'
+            spec = {'sheets': [['Sheet1', {'B1': '=SUM(Src!A:A)', 'C1': '=B1+1', 'D1': '=Src!B1*2'}],
+                               ['Src', {'A1': 1, 'A2': bad_formula, 'A3': 3, 'B1': 5, 'B2': 6}]],
+                    'names': {}, 'arrays': [],
+                    'calc': {'iterate': True, 'count': 50, 'delta': 1e-6} if mode == 'iterative' else None}
+            case = {'kind': 'unbounded', 'mode': mode, 'fault': kind}
+            comp = wb.compile_mem(spec, plugins='vp.plugins')
+            plugins.reset()
+            ctx.count('cases')
+            ctx.count('directed:failing-cell-under-unbounded-reference')
+            ctx.case(('unbounded', mode, kind))
+            key = f'{mode}/{kind}/under-unbounded-reference'
+            r = call(comp.evaluate, 'Sheet1!C1')
+            if r[0] != 'pycel':
+                ctx.violation(f'first-failure-is-not-a-pycel-error/{key}', f'evaluate(C1) gives {r!r}', case)
+                continue
+            ctx.count('faults_raised')
+            ok = True
+            for target in ('Sheet1!C1', 'Sheet1!B1', 'Src!A:A', 'Src!A2', 'Src!A1:A3'):
+                r = call(comp.evaluate, target)
+                ctx.count('retries')
+                if r[0] != 'pycel':
+                    ctx.violation(('retry-returns-a-value/' if r[0] == 'v' else 'retry-raises-a-bare-exception/') + key,
+                                  f'retry evaluate({target!r}) gives {r!r}; it reads the failing cell Src!A2', case)
+                    ok = False
+                    break
+            if not ok:
+                continue
+            r = call(comp.evaluate, 'Sheet1!D1')
+            ctx.count('unrelated_compares')
+            if r != ('v', 10):
+                ctx.violation(f'unrelated-cell-differs/{key}', f'evaluate(D1) = {r!r}, expected 10', case)
+                continue
+            comp.set_value('Src!A2', 2)
+            ctx.count('repairs')
+            for target, want in (('Sheet1!C1', 7), ('Sheet1!B1', 6), ('Src!A:A', (1, 2, 3))):
+                r = call(comp.evaluate, target)
+                ctx.count('repair_compares')
+                if r[0] != 'v' or not wb.same(r[1], want):
+                    ctx.violation(f'after-repair-differs/dependant/{key}',
+                                  f'after set_value(Src!A2, 2) evaluate({target!r}) = {r!r}, expected {want!r}', case)
+                    break
+
+
 def run(ctx):
     rng = ctx.rng
     kinds = ['nosuch', 'failk-always', 'failk-once']
+    if ctx.shard == 0:
+        unbounded_case(ctx)
     i = 0
     while not ctx.out_of_time():
         i += 1
@@ -438,7 +489,9 @@ def run(ctx):
 
 
 def replay(ctx, case):
-    if case['kind'] == 'cycle':
+    if case['kind'] == 'unbounded':
+        unbounded_case(ctx)
+    elif case['kind'] == 'cycle':
         one_cycle(ctx, case['spec'], case['info'], case['fault'], case['idx'])
     else:
         one_case(ctx, case['plan'], case['mode'], case['first'])
